@@ -29,6 +29,25 @@ int64_t input_value(int pattern, int bits, uint64_t dseed, int nnz, uint64_t tot
     if ((hh & 3) == 1) return INT64_MIN + (int64_t)((hh >> 8) & 0xFFFFFFFFFFFFull);  // the lowest 2^48 values
     return edge[(hh >> 2) & 7];
   }
+  if (pattern == PAT_CARRY) {
+    // maximal carry chains for base 2^bits normalisation of a vector with nnz limbs: every digit sits at the boundary and
+    // the least significant limb tips it over, so a +1 (or -1) carry travels through all limbs
+    const int k = bits < 1 ? 1 : (bits > 62 ? 62 : bits);
+    const uint64_t t = total ? total : 1;
+    const uint64_t l = idx / t, j = idx % t;
+    const int64_t m = (int64_t)((1ull << (k - 1)) - 1);
+    const bool lowest = nnz > 0 && l + 1 == (uint64_t)nnz;
+    switch (mix64(dseed ^ 0xCA22, j) & 3) {
+      case 0: return lowest ? m + 1 : m;
+      case 1: return lowest ? -m - 2 : -m - 1;
+      case 2: return m;
+      default: {
+        const uint64_t hh = mix64(dseed, idx);
+        int64_t r = (int64_t)(hh & ((1ull << k) - 1));
+        return (hh >> 63) ? -r : r;
+      }
+    }
+  }
   if (bits <= 0) return 0;
   if (bits > 62) bits = 62;
   const uint64_t h = mix64(dseed, idx);
